@@ -145,7 +145,7 @@ Proof.
   destruct (recompute_x_reproduces T extra pack _ s2 d2 k d3 sid p W2 Hlk2 Hg) as (Hrep & _). exact Hrep.
 Qed.
 
-(* the code as it is: the rule must be produced on its OWN parent class *)
+(* the code BEFORE fix 59cdf67: the rule must be produced on its OWN parent class (the code as it is: rec_add_spec_all, RuleDB/GetAll.v) *)
 Theorem rec_add_spec b start ends r cs pack q : add_pre (b_cdb rstore_t b) start ends r cs ->
   In q (-1 :: pack) -> In r (cands T q (r_parent r)) ->
   let b1 := rec_add T b start ends r in
